@@ -35,6 +35,32 @@ def apply_edit(root, rel, old, new):
         with open(path, 'w', newline='') as f:
             f.write(ast.unparse(ast.parse(raw)) + '\n')
         return True
+    if isinstance(old, tuple) and old[0] in ('insert_pass', 'invert_if'):
+        # ('insert_pass', lineno, col) / ('invert_if', lineno, col): behaviour-preserving edit of the statement at that position
+        import ast
+        tree = ast.parse(raw)
+        done = False
+        for parent in ast.walk(tree):
+            for field in ('body', 'orelse', 'finalbody'):
+                lst = getattr(parent, field, None)
+                if not isinstance(lst, list):
+                    continue
+                for i, st in enumerate(lst):
+                    if isinstance(st, ast.stmt) and (st.lineno, st.col_offset) == (old[1], old[2]) and not done:
+                        if old[0] == 'insert_pass':
+                            lst.insert(i, ast.Pass())
+                            done = True
+                        elif isinstance(st, ast.If) and st.orelse:
+                            st.test = st.test.operand if isinstance(st.test, ast.UnaryOp) and isinstance(st.test.op, ast.Not) else ast.UnaryOp(op=ast.Not(), operand=st.test)
+                            st.body, st.orelse = st.orelse, st.body
+                            done = True
+                        break
+        if not done:
+            return False
+        ast.fix_missing_locations(tree)
+        with open(path, 'w', newline='') as f:
+            f.write(ast.unparse(tree) + '\n')
+        return True
     if isinstance(old, tuple) and old[0] == 'rename_local':
         # ('rename_local', 'Class.method.inner', name): scope-aware rename of a local variable on the syntax tree
         import ast
